@@ -61,9 +61,10 @@ SENT = object()
 
 
 class EvI:
-    __slots__ = ("name", "tag", "args", "kw")
+    __slots__ = ("name", "tag", "args", "kw", "initial")
 
-    def __init__(self, name, tag=None, args=(), kw=None):
+    def __init__(self, name, tag=None, args=(), kw=None, initial=False):
+        self.initial = initial
         self.name = name
         self.tag = tag
         self.args = args
@@ -347,7 +348,7 @@ class Ref:
         self._run_group("enter", self.cids_enter(s), ctx, s.id)
 
     def _trigger(self, evi):
-        if evi.name == "__initial__":
+        if evi.initial:
             self._activate_initial(evi)
             return SENT
         src = self.cur()
@@ -407,7 +408,7 @@ class Ref:
         """Machine construction.  Sync engine: activates at once.  Async: only enqueues."""
         def fn():
             if self.value is None:
-                self.queue.append(EvI("__initial__"))
+                self.queue.append(EvI("__initial__", initial=True))
             if self.cfg.engine == "sync":
                 if not self.cfg.rtc:
                     return self._drain_nonrtc(self.queue.popleft()) if self.queue else None
